@@ -17,6 +17,7 @@ mod blsx;
 mod c01;
 mod c02;
 mod c08;
+mod c09;
 mod wire;
 mod fixtures;
 mod lottery_ref;
@@ -28,6 +29,7 @@ fn main() {
         "C01" => c01::run(&args),
         "C02" => c02::run(&args),
         "C08" => c08::run(&args),
+        "C09" => c09::run(&args),
         "C08-timing" => {
             c08::timing();
             0
